@@ -2,6 +2,6 @@ SPECIFICATION MCSpec
 CONSTANTS
   MaxN = 6
   Ws = {1, 2, 3}
-  Bs = {1, 2, 3}
+  Bs = {0, 1, 2, 3}
 INVARIANT InvAll
 CHECK_DEADLOCK FALSE
